@@ -18,7 +18,7 @@ RULE = ('Hypothesis: (font, text <= 32 with spaces, dir 0..7, enc, ppm) -> segme
         '(width, flags, font, pFirst <= pLast on that line or NULL). Oracle: line chains unchanged (same slots, same order, prev inverse, line start has no prev), finite origins and width, '
         'gids unchanged when the font has no justification pass, no sanitizer report, every call returns. Non-trivial: >= 2 lines and a justify on a non-first line, or the text direction '
         'differs from the font direction. Known finding KF2 (direction mismatch with >= 2 lines) excluded by construction and counted. Distinct by case JSON.')
-ASSUME = ['breaks only at cluster boundaries (a line starts with a base slot and clusters are not split)', 'pFirst/pLast are slots of the line being justified', 'a call exceeding 20 s is re-run 3x alone (60 s) before being reported']
+ASSUME = ['breaks only at cluster boundaries (a line starts with a base slot and clusters are not split)', 'pFirst/pLast are slots of the line being justified', 'a call exceeding the 8 s watchdog is re-run 3x alone (40 s limit, fresh process) before being reported as does-not-return']
 
 
 def fl(h):
@@ -89,18 +89,18 @@ def judge(case, drv):
     payload, tags = build_history(case)
     req = b'H' + struct.pack('<IBB', fid, 0, case.get('opts', 0)) + payload
     try:
-        r = drv.call(req, timeout=8 if not case.get('confirm_hang') else 60)
+        r = drv.call(req, timeout=8 if not case.get('confirm_hang') else 40)
     except DriverCrash as e:
         raise Violation('sanitizer:' + e.kind + ':' + e.summary, case, e.stderr[-1500:])
     except DriverHang:
         if not case.get('confirm_hang'):
             raise fw.Hang(case)
-        n = 0
-        for _ in range(3):
-            d2 = Driver(timeout=60)
+        n = 1                        # the call above, alone in a fresh driver with the long limit, was the first confirmation
+        for _ in range(2):
+            d2 = Driver(timeout=40)
             try:
                 f2 = d2.put_font(font)
-                d2.call(b'H' + struct.pack('<IBB', f2, 0, case.get('opts', 0)) + payload, timeout=60)
+                d2.call(b'H' + struct.pack('<IBB', f2, 0, case.get('opts', 0)) + payload, timeout=40)
             except DriverHang:
                 n += 1
             except DriverCrash:
@@ -109,7 +109,7 @@ def judge(case, drv):
                 d2.kill()
         if n == 3:
             c2 = dict(case); c2.pop('confirm_hang', None)
-            raise Violation('does-not-return', c2, 'gr_seg_justify history exceeded 60 s three times (typical: milliseconds)')
+            raise Violation('does-not-return', c2, 'gr_seg_justify history exceeded 40 s three times (alone, fresh process each) (typical: milliseconds)')
         raise Inconclusive()
     if 'error' in r or not r.get('face'):
         raise Inconclusive()
